@@ -3,7 +3,10 @@
 package scen
 
 import (
+	"crypto/sha256"
+
 	"encoding/json"
+	cmted25519 "github.com/cometbft/cometbft/crypto/ed25519"
 	"os"
 	"sync"
 	"time"
@@ -123,3 +126,10 @@ func debugOnce(label string, err error) {
 	debugSeen[label] = true
 	fmt.Fprintf(os.Stderr, "DEBUG %s: %v\n", label, err)
 }
+
+// mix folds monitor memory into a state hash.
+func mix(h [32]byte, s string) [32]byte {
+	return sha256.Sum256(append(h[:], []byte(s)...))
+}
+
+func edAddr(pk []byte) []byte { return cmted25519.PubKey(pk).Address() }
